@@ -1043,7 +1043,7 @@ fn main() {
     for idx in 0..count {
         // one independent generator state per case so that a single case can be regenerated
         let mut g = Gen { rng: Rng::new(seed.wrapping_mul(1_000_003).wrapping_add(idx as u64)), next_tag: 0, next_name: 0, names: vec![], ev_tags: vec![], legacy: false, scope: vec![], mix: false };
-        let core_host = idx % 3 == 2;
+        let core_host = idx % 3 == 2 || mode == "core";      // mode core: every case runs under a real Core
         let legacy_host = idx % 6 == 5;
         let depth = match g.rng.below(10) { 0..=2 => 0, 3..=5 => 1, 6..=7 => 2, 8 => 3, _ => 4 };
         let nsteps = 4 + g.rng.below(14) as usize;
